@@ -107,11 +107,22 @@ ChooseArraysSingle ==
        in' = [NoIn EXCEPT !.arrs = IF two THEN <<Arr(<<"x", "y">>, <<2>>, <<2, 6>>, 1), Arr(<<"x", "y">>, x2, y2, 2)>>
                                    ELSE <<Arr(<<"x">>, <<2>>, <<>>, 1), Arr(<<"x">>, x2, <<>>, 2)>>]
 
+\* a secondary axis of four labels of which the two inner ones are swapped in the second input (first and last in place)
+ChooseArraysInner ==
+  /\ ph = 0 /\ ph' = 1 /\ out' = out
+  /\ \E flip \in BOOLEAN : \E third \in BOOLEAN :
+       LET one == Arr(<<"x", "y">>, <<2, 4>>, <<2, 4, 6, 8>>, 1)
+           two == Arr(IF flip THEN <<"y", "x">> ELSE <<"x", "y">>, <<2, 4>>, <<2, 6, 4, 8>>, 2)
+       IN in' = [NoIn EXCEPT !.arrs = IF third THEN <<one, two, Arr(<<"x", "y">>, <<2, 4>>, <<2, 4, 6, 8>>, 3)>> ELSE <<one, two>>]
+
 ChooseOp ==
   /\ ph = 1 /\ ph' = 2 /\ out' = out
   /\ \E al \in BOOLEAN : \E so \in BOOLEAN :
        /\ (so => al)
-       /\ \/ in' = [in EXCEPT !.op = "stack", !.newdim = "k", !.keys = [j \in 1..Len(in.arrs) |-> 2 * (Len(in.arrs) - j)],
+       \* keys: new labels, or (kp) the numbers n-1..0 - valid positions of the list, in another order: still only labels
+       /\ \/ \E kp \in BOOLEAN :
+             in' = [in EXCEPT !.op = "stack", !.newdim = "k",
+                              !.keys = [j \in 1..Len(in.arrs) |-> IF kp THEN Len(in.arrs) - j ELSE 2 * (Len(in.arrs) - j)],
                               !.align = al, !.sort = so]
           \/ \E d \in Rng(in.arrs[1].dims) : in' = [in EXCEPT !.op = "concatenate", !.d = d, !.align = al, !.sort = so]
 
@@ -121,7 +132,7 @@ Apply ==
             THEN Stack(in.arrs, in.newdim, in.keys, in.align, in.sort)
             ELSE Concat(in.arrs, in.d, in.align, in.sort)
   /\ (Emit => PrintT(ToJson([op |-> in.op, in |-> in, out |-> out'])))
-Next == ChooseArrays \/ ChooseArrays3 \/ ChooseArraysMid \/ ChooseArraysSingle \/ ChooseOp \/ Apply
+Next == ChooseArrays \/ ChooseArrays3 \/ ChooseArraysMid \/ ChooseArraysSingle \/ ChooseArraysInner \/ ChooseOp \/ Apply
 Spec == Init /\ [][Next]_vars
 
 (* ---------- theorems ---------- *)
